@@ -29,6 +29,39 @@ def _t(ck, what):
     vlib.log("%s: %s at %.1fs" % (ck.pid, what, time.time() - ck.t0))
 
 
+def wallet_bodies(ck):
+    """S->C: the parameter classes of WalletMsg_Gen (wallet version x message count x seqno / expiry / send-mode classes) go through
+    Wallet.RawSend; WalletMsg_Trace accepts a Send event only if the signed body inside the external message has exactly the layout the
+    wallet contract's schema prescribes (sub-wallet id, expiry, seqno, op, every send mode as an unsigned byte, out-list / dictionary)."""
+    import c14
+    vecs = [v for v in c14.gen_vectors(ck) if v["exp"] == "ok" and v["n"] <= 4]
+    vp, rp, tp = (os.path.join(ck.work, "wallet_%s.ndjson" % x) for x in ("vec", "rep", "trace"))
+    vlib.write_ndjson(vp, vecs)
+    ck.run_vh(["replay", "C14", "-in", vp, "-out", rp, "-seed", ck.seed], timeout=1200)
+    bodies = [e for e in vlib.read_ndjson(rp) if e.get("k") in ("Send", "Panic")]
+    if len(bodies) < len(vecs) // 2:
+        raise Infra("only %d wallet Send events for %d cases" % (len(bodies), len(vecs)))
+    modes = {m for e in bodies for m in e.get("modes", [])}
+    if not any(m >= 128 for m in modes):
+        raise Infra("no wallet body with a send mode >= 128 was requested (modes %s)" % sorted(modes))
+    vlib.write_ndjson(tp, bodies + [{"k": "End", "events": len(bodies)}])
+    rejected, _ = c14.judge(ck, tp, "wallet_bodies")
+    for line, e, clauses in rejected:
+        ck.report("C04:wallet:%s:%s" % (c14.FAMILY.get(e.get("ver"), e.get("ver")), ",".join(clauses) or e.get("k")),
+                  "the body CreateMessageBody built for a %s wallet (%s messages, modes %s) is not the one the wallet's schema prescribes: clause(s) %s" % (
+                      e.get("ver"), e.get("n"), e.get("modes"), ",".join(clauses) or e.get("panic", "")),
+                  {"kind": "wallet", "event": c14.slim(e)})
+    ck.extra["wallet_bodies_judged"] = len(bodies)
+    ck.extra["wallet_versions"] = sorted({e.get("ver") for e in bodies})
+    # canary: one send mode changed in the recorded request (the body no longer matches it)
+    ok = next(e for e in bodies if e.get("k") == "Send" and e.get("err") == "" and e.get("modes"))
+    bad = copy.deepcopy(ok); bad["modes"][0] = (bad["modes"][0] + 128) % 256
+    cp = os.path.join(ck.work, "wallet_canary.ndjson")
+    vlib.write_ndjson(cp, [bad, ok, {"k": "End", "events": 2}])
+    rej, _ = c14.judge(ck, cp, "wallet_canary", account=False)
+    ck.canary("wallet body: a request whose first send mode differs by 128 from the body is rejected, the original accepted", [r[0] for r in rej] == [1])
+
+
 def run(ck):
     ck.assumptions += ["TLC 1.8.0, CommunityModules", "Prim converters", "tools/tlb2json.py and the transcription of block.tlb in spec/schemas/block_core.tlb",
                        "encodings containing dictionary entries are not unique and are not compared bit by bit (C05 judges dictionaries)",
@@ -52,6 +85,9 @@ def run(ck):
     cp, cr = os.path.join(ck.work, "canary_prim.ndjson"), os.path.join(ck.work, "canary_prim_out.ndjson")
     vlib.write_ndjson(cp, [v0]); ck.run_vh(["replay", "C04", "-in", cp, "-out", cr])
     ck.canary("S->C: an expectation with one extra bit is flagged", not vlib.read_ndjson(cr)[0]["match"])
+    # ---- wallet v3/v4/v5/highload bodies: the layouts of spec/WalletMsg.tla (the specification C14 uses), body bits only
+    wallet_bodies(ck)
+    _t(ck, "wallet bodies judged")
     # ---- C->S core structures and real data
     schema = tlbcommon.schema_file(ck)
     traces = cellcommon.drive_shards(ck, "C04", extra=["schema=" + schema, "summary"])
